@@ -90,6 +90,9 @@ type Path struct {
 	builders  map[*value]*strings.Builder
 	fs        map[string]*memFile
 	markers   map[int]*Term
+	keyCounter int
+	rands     map[*value]*randState
+	randMemo  map[string][]int
 	handles   map[*value]*fileHandle
 }
 
